@@ -52,10 +52,12 @@ def gen_scored_query(rng, cfg, depth):
         return leaf()
     c = rng.choice(("and", "or", "or", "dismax", "require", "andnot", "andmaybe", "const"))
     sub = lambda: gen_scored_query(rng, cfg, depth - 1)
+    # (one clause is legal too: a query builder that collects clauses in a list ends up with it)
+    n = 1 if rng.random() < 0.12 else rng.randint(2, 3)
     if c in ("and", "or"):
-        q = [c, [sub() for _ in range(rng.randint(2, 3))]]
+        q = [c, [sub() for _ in range(n)]]
     elif c == "dismax":
-        q = ["dismax", [sub() for _ in range(rng.randint(2, 3))], 0.0]
+        q = ["dismax", [sub() for _ in range(n)], 0.0]
     elif c == "const":
         q = ["const", sub(), rng.choice((1.0, 2.5))]
     else:
